@@ -26,7 +26,7 @@ import (
 )
 
 var st = stat.New("C09",
-	"Case = one proxy (in a third of the cases two proxy objects for the same object string, used alternately: they share connection and pending-reply table) + scripted server, generated client limits (calls in flight per proxy 1..6 or default, send queue length 1..4 or default), in three eighths of the cases a registered client filter (pre, post, legacy single filter or middleware) that passes calls through except a fifth of them, for which it returns an error (pre/post: beside the call proper; legacy/middleware: instead of invoking it), 1..8 steps; step = 1..12 concurrent calls (or one) each with {timeout source: proxy default (TarsSetTimeout) | per-call (current.SetClientTimeout) | context deadline; value 60..600 ms, or (a sixth of the per-call and context ones) 0 or 1 ms - a deadline that is used up when the call starts; two-way or one-way} and a peer behaviour per request from {answer, answer after the deadline, answer in the instant of the deadline, answer twice, reply split in two pieces 5 ms apart, reply split with the second piece after the deadline and after the client's read timeout, silent, close connection now, close in the middle of the response, garbage bytes, illegal length prefix}; between steps the server may stop listening (dials are refused) and come back. Oracle per call: returns (watchdog 20 s), wall clock <= effective deadline + 150 ms + 10% (an overrun is re-measured by re-running the case alone twice; unconfirmed => inconclusive), outcome is reply or error; a call whose complete reply the server had written >= 150 ms before its deadline must succeed when neither this nor the previous step scripts a connection fault. After quiescence (all calls returned, all scripted late replies delivered, +60 ms): the proxy's in-flight counter, the size of the pending-reply tables and the manager's invocation counter are back to 0; a late reply changes no other call's outcome (checked by serial as in C08). Non-trivial = case with >=1 timed-out call, >=1 peer fault and a later successful call. Distinct = distinct case JSON. Peer-stops-reading sub-check: a server that accepts the connection and never reads, requests of 8 or 16 MiB, client send queue of 1..3 requests, queue+3..queue+6 calls (context deadlines 100..300 ms, in sequence or at once, two-way or one-way); oracle: each call returns within deadline + 10% + 150 ms + 25 ms per MiB of payload (re-measured twice), no two-way call succeeds, the counters are back to 0 afterwards. Establishment sub-check: endpoint transport tcp | ssl, a peer that accepts the TCP connection and then is silent | closes after 0..200 ms | sends garbage (so that on ssl the TLS handshake never completes), 1..3 sequential calls with per-call or context timeouts 100..600 ms and a dial timeout of 400 ms; oracle: each call returns (watchdog 20 s) with an error within timeout + dial timeout + 150 ms + 10% (re-measured twice), the counters are back to 0 afterwards.",
+	"Case = one proxy (in a third of the cases two proxy objects for the same object string, used alternately: they share connection and pending-reply table) + scripted server, generated client limits (calls in flight per proxy 1..6 or default, send queue length 1..4 or default), in a third of the cases the framework's keep-alive ping (one-way tars_ping) is sent on the proxy's adapters after every step, also while the server refuses connections, in three eighths of the cases a registered client filter (pre, post, legacy single filter or middleware) that passes calls through except a fifth of them, for which it returns an error (pre/post: beside the call proper; legacy/middleware: instead of invoking it), 1..8 steps; step = 1..12 concurrent calls (or one) each with {timeout source: proxy default (TarsSetTimeout) | per-call (current.SetClientTimeout) | context deadline; value 60..600 ms, or (a sixth of the per-call and context ones) 0 or 1 ms - a deadline that is used up when the call starts; two-way or one-way} and a peer behaviour per request from {answer, answer after the deadline, answer in the instant of the deadline, answer twice, reply split in two pieces 5 ms apart, reply split with the second piece after the deadline and after the client's read timeout, silent, close connection now, close in the middle of the response, garbage bytes, illegal length prefix}; between steps the server may stop listening (dials are refused) and come back. Oracle per call: returns (watchdog 20 s), wall clock <= effective deadline + 150 ms + 10% (an overrun is re-measured by re-running the case alone twice; unconfirmed => inconclusive), outcome is reply or error; a call whose complete reply the server had written >= 150 ms before its deadline must succeed when neither this nor the previous step scripts a connection fault. After quiescence (all calls returned, all scripted late replies delivered, +60 ms): the proxy's in-flight counter, the size of the pending-reply tables and the manager's invocation counter are back to 0; a late reply changes no other call's outcome (checked by serial as in C08). Non-trivial = case with >=1 timed-out call, >=1 peer fault and a later successful call. Distinct = distinct case JSON. Peer-stops-reading sub-check: a server that accepts the connection and never reads, requests of 8 or 16 MiB, client send queue of 1..3 requests, queue+3..queue+6 calls (context deadlines 100..300 ms, in sequence or at once, two-way or one-way); oracle: each call returns within deadline + 10% + 150 ms + 25 ms per MiB of payload (re-measured twice), no two-way call succeeds, the counters are back to 0 afterwards. Establishment sub-check: endpoint transport tcp | ssl, a peer that accepts the TCP connection and then is silent | closes after 0..200 ms | sends garbage (so that on ssl the TLS handshake never completes), 1..3 sequential calls with per-call or context timeouts 100..600 ms and a dial timeout of 400 ms; oracle: each call returns (watchdog 20 s) with an error within timeout + dial timeout + 150 ms + 10% (re-measured twice), the counters are back to 0 afterwards.",
 	"on loopback a connection is established or refused within a millisecond, so the connection-establishment bound of the property contributes nothing to the deadline; black-holed addresses (slow dials) cannot be produced offline",
 	"the per-connection in-flight counter (transport level) is observed and reported as a class, not asserted: the property's state list names the proxy counter, the pending-reply table and the manager counter")
 
@@ -63,6 +63,10 @@ type Case struct {
 	// "legacy" (RegisterClientFilter) or "middleware"; it passes every call through except
 	// those marked Reject
 	FilterMode string `json:"filter_mode,omitempty"`
+	// KeepAlive: after every step the framework's keep-alive ping (one-way tars_ping, what
+	// push clients and keep-alive-interval send) goes out on the proxy's adapters - also while
+	// the server refuses connections
+	KeepAlive bool `json:"keep_alive,omitempty"`
 }
 
 func draw(rt *rapid.T) Case {
@@ -72,6 +76,7 @@ func draw(rt *rapid.T) Case {
 		c.ClientQueueLen = rapid.IntRange(1, 4).Draw(rt, "clientQueueLen")
 	}
 	c.TwoProxies = rapid.IntRange(0, 2).Draw(rt, "twoProxies") == 0
+	c.KeepAlive = rapid.IntRange(0, 2).Draw(rt, "keepAlive") == 0
 	c.FilterMode = rapid.SampledFrom([]string{"", "", "", "pre", "pre", "post", "legacy", "middleware"}).Draw(rt, "filterMode")
 	ns := rapid.IntRange(1, 8).Draw(rt, "nsteps")
 	listening := true
@@ -354,6 +359,20 @@ func runOnce(c Case) verdict {
 		if breaks(stp) || stp.Restore {
 			lastFault = time.Now()
 		}
+		if c.KeepAlive {
+			kd := make(chan struct{})
+			go func() {
+				defer close(kd)
+				for _, px := range proxies {
+					px.VerifKeepAlive()
+				}
+			}()
+			select {
+			case <-kd:
+			case <-time.After(20 * time.Second):
+				return verdict{f: stat.Failf("call-never-returned", "step %d: the keep-alive ping did not return within 20 s", si)}
+			}
+		}
 		reqsNow, sent, _ := srv.Snapshot()
 		idsOfTok := map[int]map[int32]bool{}
 		for _, rq := range reqsNow {
@@ -520,6 +539,9 @@ func TestC09(t *testing.T) {
 			}
 		}
 		var cls []string
+		if c.KeepAlive {
+			cls = append(cls, "keep-alive-pings-between-steps")
+		}
 		if c.FilterMode != "" {
 			cls = append(cls, "client-filter-"+c.FilterMode)
 		}
